@@ -27,6 +27,14 @@ fn drive<E: Engine>(args: &[String]) -> i32 {
     } else {
         Tier::Quick
     };
+    if args.iter().any(|a| a == "--gen-only") {
+        for run in from..to {
+            let mut rng = simlib::prng::Rng::split(seed, E::name(), run);
+            let case = E::gen(&mut rng, tier);
+            let _ = writeln!(out, "{}", serde_json::json!({"run": run, "case": E::to_json(&case)}));
+        }
+        return 0;
+    }
     let r = run_range::<E>(seed, from, to, tier, out);
     let _ = out.flush();
     i32::from(r.violations > 0)
